@@ -5,7 +5,7 @@ import datetime as dt
 
 import runner
 from sim import invoker, fakevcs, adapter, world as simworld
-from ref import pattern as rp, pep440
+from ref import pattern as rp, pep440, legacy
 from gen import patterns as gp, layouts
 from campaigns import testcmd as tc
 
@@ -87,7 +87,8 @@ class Life:
         rng = runner.rng_for(seed, self.name, index)
         vcs = self.vcs
         project = layouts.gen_project(rng, mode=self.mode, allow_mixed=self.allow_mixed, vcs=vcs, family=self.family,
-                                      pep_any=self.pep_any, force_pep=self.force_pep, zero_bid=self.zero_bid)
+                                      pep_any=self.pep_any, force_pep=self.force_pep, zero_bid=self.zero_bid,
+                                      legacy=(self.family == "legacy"))
         if project["vcs"] is not None:
             # quoting of odd paths at the VCS seam is C12's subject; keep this campaign's failures version-caused
             if any(ch in f["path"] for f in project["files"] for ch in " '\"") or \
@@ -96,7 +97,7 @@ class Life:
                 for k in ("commit", "tag", "push"):
                     if k in project["cfg"]:
                         project["cfg"][k] = False
-        tree = rp.tokenize(project["version_pattern"])
+        tree = legacy.tokenize_any(project["version_pattern"])
         ops = gen_ops(rng, tree, 1, self.nmax, self.sv_rate, self.dry_rate)
         return {"project": project, "ops": ops, "glob_seed": rng.randrange(1 << 30)}
 
@@ -268,3 +269,58 @@ class Life:
                             ctx.violation("C15", "pep440_slot_not_found_again", dict(base_facts, path=f["path"]),
                                           "search pattern %r no longer finds the {pep440_version} text written to %s for %r" % (
                                               raw, f["path"], text))
+
+
+class Locale:
+    """LOCALE leg of C04 (and the fidelity self-test of the in-process seam): the same single update is executed
+    in-process and in a real child interpreter under an ASCII locale with UTF-8 mode off, on two copies of one world."""
+
+    def __init__(self, focus, quick, thorough):
+        self.name = "LOCALE/" + focus
+        self._quick, self._thorough = quick, thorough
+
+    def total(self, tier):
+        return self._quick if tier == "quick" else self._thorough
+
+    def deadline(self, tier):
+        return 170 if tier == "quick" else 1500
+
+    def gen(self, seed, index, tier):
+        rng = runner.rng_for(seed, self.name, index)
+        # file *names* stay ASCII here: a non-ASCII name cannot even be encoded by an ASCII-locale interpreter,
+        # which is the operating system's doing and not in the statement (it speaks of text inside files)
+        project = layouts.gen_project(rng, mode="bytes", vcs="none", allow_odd_paths=False)
+        tree = rp.tokenize(project["version_pattern"])
+        flags = gp.gen_flags(rng, tree)
+        flags.pop("pin_date", None)
+        return {"project": project, "ops": [{"op": "update", "flags": flags, "delta": gp.gen_clock_delta(rng)}],
+                "locale": "ascii" if index % 4 else "utf8"}
+
+    def run(self, case, ctx):
+        project = case["project"]
+        op = case["ops"][0]
+        clock = dt.date.fromisoformat(project["epoch"])
+        tree = rp.tokenize(project["version_pattern"])
+        clock = tc.step_clock(ctx, clock, op.get("delta", 0), gp.has_two_digit_year(tree))
+        argv = ["update"] + gp.flags_to_argv(op.get("flags", {})) + ["--date", clock.isoformat()]
+        wa = simworld.World(project)
+        wa.materialise()
+        wb = simworld.World(project)
+        wb.materialise()
+        ra = invoker.invoke(wa.dir, argv, dt.date(1999, 1, 1))
+        rb_ = invoker.invoke_child(wb.dir, argv, locale=case["locale"])
+        ctx.invocations += 2
+        ctx.event(argv, ra.exit_code, rb_.exit_code, invoker.digest_snapshot(ra.after), invoker.digest_snapshot(rb_.after))
+        nonascii = any(any(ord(ch) > 127 for ch in (data or b"").decode("utf-8", "replace")) for data in ra.before.values())
+        ctx.probe("child_locale_" + case["locale"])
+        if nonascii:
+            ctx.probe("non_ascii_content")
+        ctx.nontriv((case["locale"], ra.exit_code, nonascii, tuple(sorted(set(f["regime"] for f in project["files"])))))
+        ctx.sample = {"campaign": self.name, "argv": argv, "locale": case["locale"], "exit": [ra.exit_code, rb_.exit_code]}
+        facts = {"locale": case["locale"], "pattern": project["version_pattern"]}
+        if ra.exit_code != rb_.exit_code or ra.after != rb_.after:
+            diff = [p for p in set(ra.after) | set(rb_.after) if ra.after.get(p) != rb_.after.get(p)]
+            kind = "locale_divergence" if case["locale"] == "ascii" else "child_process_divergence"
+            ctx.violation("C04", kind, facts,
+                          "in-process (UTF-8) exit %s vs child (%s locale) exit %s; differing files %s; child stderr %s" % (
+                              ra.exit_code, case["locale"], rb_.exit_code, diff[:4], rb_.stderr[-300:]))
